@@ -90,12 +90,26 @@ def run_job(job, attrs_csv):
     feed = series(fk, n, fscale, rng)
     grass = series(gk, n, gscale, rng)
     ap.AnimalSpecies.feed_the_species = wrapped
+    o_feed_animals = ap.AnimalPopulation.feed_animals
+
+    def w_feed_animals(animal_list, ruminants, available_feed, available_grass):
+        log.append("MONTH")  # month boundary: the calls that follow belong to one month's feeding
+        return o_feed_animals(animal_list, ruminants, available_feed, available_grass)
+
+    ap.AnimalPopulation.feed_animals = w_feed_animals
     try:
         with contextlib.redirect_stdout(io.StringIO()):
             animals, feed_used, grass_used = ap.main(cc, food_series(feed.copy()), food_series(grass.copy()),
                                                     strat, None, 0, kd)
     finally:
         ap.AnimalSpecies.feed_the_species = orig
+        ap.AnimalPopulation.feed_animals = o_feed_animals
+    months_log = []
+    for item in log:
+        if item == "MONTH":
+            months_log.append([])
+        elif months_log:
+            months_log[-1].append(item)
     attr = {}
     pop0 = {}
     for a in animals:
@@ -114,11 +128,11 @@ def run_job(job, attrs_csv):
         )
         pop0[a.animal_type] = num(a.population[0])
     ev = []
-    per_month = len(animals)
-    assert len(log) == per_month * n, (len(log), per_month, n)
+    while len(months_log) < n:
+        months_log.append([])
     for m in range(n):
         ev.append(dict(ev="BeginMonth", grass=num(grass[m]), feed=num(feed[m])))
-        for (typ, pre, gout, fout, fedn) in log[m * per_month:(m + 1) * per_month]:
+        for (typ, pre, gout, fout, fedn) in months_log[m]:
             ev.append(dict(ev="Feed", s=typ, pop=num(pre[0]), need=num(pre[1]), grassIn=num(pre[2]),
                            feedIn=num(pre[3]), grassOut=num(gout), feedOut=num(fout), fed=num(fedn)))
         ev.append(dict(ev="EndFeeding", grassUsed=num(grass_used.kcals[m]), feedUsed=num(feed_used.kcals[m])))
